@@ -7,6 +7,8 @@ actor (requests are atomic) and must be permitted by the documented policy for t
 """
 from __future__ import annotations
 
+import urllib.parse
+
 from .. import clock as simclock
 from .. import worlds
 from ..actors.intruder import CsrfProbe, Intruder, RECIPES, discover_ids
@@ -39,7 +41,39 @@ def small_world() -> dict:
     }
 
 
+SAME_SERVICE_PAIRS = [
+    # (service, operations that all take a token of that service)
+    ("keys", [{"op": "add_key", "kid": "a1" * 16, "key": "b1" * 16}, {"op": "add_key", "kid": "a2" * 16, "key": "b2" * 16},
+              {"op": "delete_key", "which": 0}, {"op": "add_key", "kid": "a3" * 16, "key": None}]),
+    ("streams", [{"op": "add_stream", "dir": "raceone", "title": "r1"}, {"op": "add_stream", "dir": "racetwo", "title": "r2"},
+                 {"op": "edit_stream", "which": 0, "title": "renamed by the burst"},
+                 {"op": "delete_stream", "which": 0, "how": "ajax"}]),
+    ("files", [{"op": "index", "which_file": 0}, {"op": "index", "which_file": 1},
+               {"op": "delete_media", "which_file": 0, "how": "ajax"}, {"op": "delete_media", "which_file": 1, "how": "ajax"}]),
+]
+
+
+def generate_burst(seed: int, tier: str, index: int) -> dict:
+    """Second stage: one CSRF token submitted by several requests that are served concurrently."""
+    rng = base.rng_for(seed, "gen-burst")
+    t0 = simclock.SimClock.parse(rng.choice(mc.T0_CHOICES))
+    script = [{"op": "auth"}]
+    for _ in range(rng.choice([1, 1, 2])):
+        service, ops = rng.choice(SAME_SERVICE_PAIRS)
+        n = rng.choice([2, 2, 3])
+        reqs = [dict(o) for o in rng.sample(ops, n)]
+        script.append({"op": "burst", "requests": reqs, "sched": rng.getrandbits(32), "same_token": True,
+                       "service": service})
+    actor = {"id": "probe", "kind": "burster", "role": rng.choice(["media", "media", "admin"]),
+             "prng": rng.getrandbits(32), "latency": {"min_us": 1000, "jitter_us": 0}, "script": script}
+    return {"property": ID, "seed": seed, "index": index, "tier": tier, "hashseed": index % base.HASHSEEDS,
+            "t0_us": t0, "sched_seed": rng.getrandbits(32), "family": "burst", "world": {"template": "small"},
+            "actors": [actor]}
+
+
 def generate(seed: int, tier: str, index: int) -> dict:
+    if index % 6 == 5:
+        return generate_burst(seed, tier, index)
     rng = base.rng_for(seed, "gen")
     t0 = simclock.SimClock.parse(rng.choice(mc.T0_CHOICES))
     actors = []
@@ -110,6 +144,40 @@ def generate(seed: int, tier: str, index: int) -> dict:
                        "script": [{"op": "sleep", "us": rng.randrange(0, 4_000_000)}, {"op": "restart"}]})
     return {"property": ID, "seed": seed, "index": index, "tier": tier, "hashseed": index % base.HASHSEEDS,
             "t0_us": t0, "sched_seed": rng.getrandbits(32), "world": {"template": "small"}, "actors": actors}
+
+
+class BurstOracle:
+    """A CSRF token is accepted at most once - also when its uses are served at the same time."""
+
+    def __init__(self, sim: Sim) -> None:
+        self.sim = sim
+
+    def on_burst(self, actor, st: dict, reqs: list[dict], outcome: dict) -> None:
+        from ..actors.burster import token_of
+        sim = self.sim
+        tok = token_of(reqs[0])
+        if not st.get("same_token") or tok is None or any(token_of(r) != tok for r in reqs):
+            return
+        sim.check("c15-csrf-concurrent")
+        if outcome.get("interleaved"):
+            sim.world.probe("c15.burst-interleaved")
+        # every accepted use stores one Token row (type CSRF = 4) under the token text
+        def plain(t: str) -> str:
+            for _ in range(4):
+                t2 = urllib.parse.unquote(t)
+                if t2 == t:
+                    break
+                t = t2
+            return t
+        uses = [plain(j) for j in outcome["csrf_rows"]].count(plain(tok))
+        ok_status = [r.status for r in outcome["results"]]
+        if uses > 1:
+            ops = "+".join(sorted(r["recipe"]["op"] for r in reqs))
+            sim.violate("csrf-token-used-twice", f"{ops}/after=concurrent",
+                        f"one {st.get('service')} token was accepted by {uses} of {len(reqs)} requests served "
+                        f"concurrently (statuses {ok_status}): "
+                        f"{[r['method'] + ' ' + urllib.parse.urlsplit(r['url']).path for r in reqs]}; schedule "
+                        f"{[(t, l) for t, l in outcome['schedule']][:40]}")
 
 
 class StateOracle:
@@ -206,16 +274,28 @@ def execute(spec: dict) -> dict:
     world, info = worlds.instantiate("run", template, secrets_seed=base.sub_seed(spec["seed"], "secrets"))
     try:
         simclock.CLOCK.us = spec["t0_us"]
+        if spec.get("family") == "burst":
+            world.stop()
+            world.preemptive = True
+            world.start()
         sim = Sim(world, spec["sched_seed"])
         oracle = StateOracle(sim)
         sim.before_delivery = oracle.before_delivery
         sim.after_delivery = oracle.after_delivery
         actors = []
         for a in spec["actors"]:
+            if a["kind"] == "burster":
+                from ..actors.burster import Burster
+                b = Burster(sim, a)
+                b.observers = [BurstOracle(sim)]
+                actors.append(b)
+                continue
             cls = CsrfProbe if a["kind"] == "csrfprobe" else Intruder
             actors.append(cls(sim, a))
         sim.run(actors)
-        return base.outcome(ID, spec, sim, world, nontrivial=bool(sim.checks.get("c15-request", 0) > 5),
-                            extra={"sim_seconds": (simclock.CLOCK.us - spec["t0_us"]) / 1e6})
+        nontrivial = bool(sim.checks.get("c15-request", 0) > 5 or sim.checks.get("c15-csrf-concurrent"))
+        return base.outcome(ID, spec, sim, world, nontrivial=nontrivial,
+                            extra={"sim_seconds": (simclock.CLOCK.us - spec["t0_us"]) / 1e6,
+                                   "counters": {f"family.{spec.get('family', 'atomic')}": 1}})
     finally:
         world.destroy()
